@@ -116,6 +116,28 @@ pub fn sph_points(f32mode: bool) -> Vec<f64> {
     v
 }
 
+/// Special.tla's argument classes of the cylindrical Bessel functions: every class (both signs, both sides of every
+/// switch) must contain a sweep argument; returns (class, number of arguments, branches of J0 / J1 / J2)
+pub fn bessel_class_coverage(paths: &[String]) -> Result<Vec<Value>, String> {
+    let mut out = vec![];
+    for p in paths {
+        let text = std::fs::read_to_string(p).map_err(|e| format!("{p}: {e}"))?;
+        for line in text.lines() {
+            let Some(classes) = crate::replay::parse_tagged(line, "BESSELCLASSES") else { continue };
+            for c in classes.as_array().ok_or("classes")? {
+                let q = |v: &Value| v[0].as_f64().unwrap_or(f64::NAN) / v[1].as_f64().unwrap_or(f64::NAN);
+                let (lo, hi, sign) = (q(&c["lo"]), q(&c["hi"]), c["sign"].as_i64().unwrap_or(0));
+                let n = bessel_points().iter().filter(|x| if sign == 0 { **x == 0.0 } else { **x != 0.0 && x.signum() == sign as f64 && x.abs() >= lo && x.abs() < hi }).count();
+                if n == 0 {
+                    return Err(format!("vacuity: no sweep argument in the Bessel argument class {}", c["cls"]));
+                }
+                out.push(json!({"cls": c["cls"], "arguments": n, "j0": c["j0"], "j1": c["j1"], "j2": c["j2"]}));
+            }
+        }
+    }
+    Ok(out)
+}
+
 pub fn bessel_points() -> Vec<f64> {
     let up = |x: f64| f64::from_bits(x.to_bits() + 1);
     let dn = |x: f64| f64::from_bits(x.to_bits() - 1);
